@@ -431,14 +431,22 @@ Qed.
 (* ------------------------------------------------------------------ the characters written *)
 Definition nl_free (s : str) : Prop := forallb (fun ch => negb (is_linebreak ch)) s = true.
 
-Lemma splitlines_aux_nl_free : forall s cur, nl_free s ->
-  splitlines_aux s cur = match rev cur ++ s with [] => [] | l => [l] end.
+Lemma nl_free_not_crlf ch : is_linebreak ch = false -> ((ch =? c_cr) || (ch =? c_nl))%N = false.
+Proof.
+  intros H. destruct (ch =? c_cr)%N eqn:E1.
+  - apply N.eqb_eq in E1. subst. vm_compute in H. discriminate.
+  - destruct (ch =? c_nl)%N eqn:E2; [|reflexivity].
+    apply N.eqb_eq in E2. subst. vm_compute in H. discriminate.
+Qed.
+
+Lemma split_crlf_aux_nl_free : forall s cur, nl_free s ->
+  split_crlf_aux s cur = match rev cur ++ s with [] => [] | l => [l] end.
 Proof.
   induction s as [|ch s IH]; intros cur H.
   - simpl. rewrite app_nil_r. destruct cur; simpl; [reflexivity|]. destruct (rev cur ++ [c]) eqn:E; [|reflexivity].
     apply app_eq_nil in E. destruct E; discriminate.
   - unfold nl_free in H. simpl in H. apply andb_true_iff in H. destruct H as [H1 H2].
-    apply negb_true_iff in H1. simpl. rewrite H1. rewrite IH by exact H2. simpl.
+    apply negb_true_iff in H1. cbn [split_crlf_aux]. rewrite (nl_free_not_crlf ch H1). rewrite IH by exact H2. simpl.
     rewrite <- app_assoc. reflexivity.
 Qed.
 
@@ -450,7 +458,7 @@ Qed.
 
 Lemma os_value_push_string : forall f o s, nl_free s -> os_value (os_push_string f o s) = os_value o ++ s.
 Proof.
-  intros f o s H. unfold os_push_string, splitlines. rewrite splitlines_aux_nl_free by exact H. simpl.
+  intros f o s H. unfold os_push_string, split_crlf. rewrite split_crlf_aux_nl_free by exact H. simpl.
   destruct s; simpl; [rewrite app_nil_r; reflexivity|apply os_value_push].
 Qed.
 
